@@ -67,6 +67,8 @@ def T(rng, t):
         "def last{t}() {{ pick_cref(make_value({t})) }}\nvar lf{t} = fun() {{ pick_ref(Tracked({t})) }}\nlast{t}().touch()\nlf{t}().touch()\nby_cref(last{t}())\nlf{t} = fun() {{ 0 }}\nsettle()\nexpect_dead({t})",
         "def ifv{t}(c) {{ if (c) {{ pick_cref(make_value({t})) }} else {{ pick_ptr(make_value({t1})) }} }}\nifv{t}(true).touch()\nby_cptr(ifv{t}(false))\nby_value(ifv{t}(true)) + by_ref(ifv{t}(false))\nsettle()\nexpect_dead({t})\nexpect_dead({t1})",
         "class L{t} {{ def L{t}() {{ }}; def get() {{ pick_ref(make_value({t})) }} }}\nL{t}().get().touch()\nby_cref(L{t}().get())\npick_cref(L{t}().get()).touch()\nsettle()\nexpect_dead({t})",
+        # a C++ function goes on using its (converted / temporary) argument after a script callback has made calls of its own in nested scopes
+        "def cb{t}() {{ var x = 0; for (var i = 0; i < 3; ++i) {{ x += by_cref(make_value({t})) }}; x }}\nuse_after_callback({k}, cb{t})\nuse_after_callback({k}, fun() {{ {{ by_value(make_value({t})) }}; 1 }})\nuse_after_callback(Tracked({t1}), cb{t})\nuse_after_callback({k}, fun() {{ by_cref({k}) + use_after_callback({k}, cb{t}) }})\nsettle()\nexpect_dead({kc})\nexpect_dead({t})\nexpect_dead({t1})",
         # members of temporaries used within the same statement
         "Holder({t}).inner.touch()\nby_ref(make_holder({t}).inner)\nby_cref(Holder({t}).get_inner)\nmake_holder({t}).get_inner.touch()\nHolder({t}).get_inner().touch()\npick_cref(make_holder({t}).inner).touch()\nsettle()\nexpect_dead({t})",
         "{{\n  var h = Holder({t})\n  h.inner.touch()\n  var &r = h.inner\n  r.touch()\n  by_ptr(h.get_inner)\n  var h2 = h\n  h2.inner.set_tag({t1})\n  h.inner.touch()\n}}\nsettle()\nexpect_dead({t})\nexpect_dead({t1})",
@@ -139,7 +141,7 @@ def run(ctx, tier, seed, scale=1.0):
     ctx.min_events["instances-destroyed"] = 5000
     if not ctx.samples:
         ctx.sample({"program": progs[0][:1500]})
-    ctx.rule = ("one case = 2-5 route templates (33 shapes, seeded parameters) over the instrumented class; every template ends with all referrers to its tags "
+    ctx.rule = ("one case = 2-5 route templates (34 shapes, seeded parameters) over the instrumented class; every template ends with all referrers to its tags "
                 "gone by construction and probes expect_dead / expect_alive; evaluated on the thread that owns the engine; the engine is destroyed inside "
                 "the case and the registry audited afterwards; all cases non-trivial; distinct by source")
     ctx.assumptions += ["reference cycles are not generated (the property excepts them)",
